@@ -57,7 +57,8 @@ def getopts(args):
     if len(seen) != len(set(seen)):
         return False, set(), []
     return True, set(seen), free
-TIMEOUTS = [None, "0", "1", "3", "9999", "4294967295", "4294967296", "-1", "abc", "", "+5", "007", "1 ", "99999999999999999999"]
+TIMEOUTS = [None, "0", "1", "3", "9999", "4294967295", "4294967296", "-1", "abc", "", "+5", "007", "1 ", "99999999999999999999",
+            "010", "0012", "08", "0x10", "0b11", "0o7", "1e1", "1_0", "00"]
 
 
 def inv_flags(lossy):
@@ -101,7 +102,7 @@ def check(report, tier, seed):
             opts = [o for o in OPTIONS if rng.random() < (0.05 if o in ("-h", "--help", "--version", "--bogus", "-Z", "-dd", "--debug=1", "--chec", "-", "--h", "--v", "--d=1", "", "--c") else 0.11)]
             rng.shuffle(opts)
             hk = rng.choice(["halting", "halting", "forever", "bubbling", "errstat", "aborts", "rejected", "missing"])
-            plain = k < 105        # first the well-formed invocations: every program x every small timeout, a few output options
+            plain = k < 120        # first the well-formed invocations: every program x every small timeout, a few output options
             if plain:
                 opts = list(rng.choice([[], ["-q"], ["-t"], ["-q", "-t"], ["--quiet"], ["-d"]]))
                 hk = ["halting", "forever", "bubbling", "errstat", "aborts"][k % 5]
@@ -114,7 +115,7 @@ def check(report, tier, seed):
             nfree = rng.choice([0, 1, 2, 2, 3, 3, 3, 4])
             t = rng.choice(TIMEOUTS)
             if plain:
-                yo_path, nfree, t = good_yo, 3, ["0", "1", "2", "3", "4", "5", "7", "9", "12"][(k // 5) % 9]
+                yo_path, nfree, t = good_yo, 3, ["0", "1", "2", "3", "4", "5", "7", "9", "12", "010", "0012", "+11"][(k // 5) % 12]
             if hk in ("forever", "bubbling") and t in ("9999", "4294967295", None):
                 t = rng.choice(["0", "1", "3", "+5", "007"])
             free = [hcl_path, yo_path, t if t is not None else "5", "extra"][:nfree]
